@@ -1,0 +1,111 @@
+//go:build verif
+
+package json
+
+// Contracts for the JSON number lexer (properties C21, C22).
+// The grammar is RFC 8259 section 6:
+//
+//	number = [ minus ] int [ frac ] [ exp ]
+//	int    = zero / ( digit1-9 *DIGIT )
+//	frac   = decimal-point 1*DIGIT
+//	exp    = e [ minus / plus ] 1*DIGIT
+
+func specIsDigit(c byte) bool { return '0' <= c && c <= '9' }
+
+// specDigitRun is the number of consecutive DIGITs of in starting at i.
+//
+//@ opaque
+func specDigitRun(in []byte, i int) int {
+	if 0 <= i && i < len(in) && specIsDigit(in[i]) {
+		return 1 + specDigitRun(in, i+1)
+	}
+	return 0
+}
+
+// specIntStart: position after the optional minus.
+func specIntStart(in []byte) int {
+	if len(in) > 0 && in[0] == '-' {
+		return 1
+	}
+	return 0
+}
+
+// specIntEnd: end of [minus] int, or -1 if the input does not start with one.
+func specIntEnd(in []byte) int {
+	i := specIntStart(in)
+	if i >= len(in) {
+		return -1
+	}
+	if in[i] == '0' {
+		return i + 1
+	}
+	if '1' <= in[i] && in[i] <= '9' {
+		return i + specDigitRun(in, i)
+	}
+	return -1
+}
+
+// specFracEnd: end of [minus] int [frac]; requires specIntEnd(in) >= 0.
+func specFracEnd(in []byte) int {
+	i := specIntEnd(in)
+	if i+1 < len(in) && in[i] == '.' && specIsDigit(in[i+1]) {
+		return i + 1 + specDigitRun(in, i+1)
+	}
+	return i
+}
+
+// specExpDigits: position of the first exponent digit if an exponent with at
+// least one digit follows the fraction, else -1.
+func specExpDigits(in []byte) int {
+	i := specFracEnd(in)
+	if i < len(in) && (in[i] == 'e' || in[i] == 'E') {
+		j := i + 1
+		if j < len(in) && (in[j] == '+' || in[j] == '-') {
+			j++
+		}
+		if j < len(in) && specIsDigit(in[j]) {
+			return j
+		}
+	}
+	return -1
+}
+
+// specNumberEnd: the end of the longest prefix of in that is a JSON number, or
+// -1 if no prefix is one.
+func specNumberEnd(in []byte) int {
+	if specIntEnd(in) < 0 {
+		return -1
+	}
+	j := specExpDigits(in)
+	if j >= 0 {
+		return j + specDigitRun(in, j)
+	}
+	return specFracEnd(in)
+}
+
+//@ props C21
+//@ mode int
+func contract_isNotDelim(c byte) (r bool) {
+	ensures(r == (c == '-' || c == '+' || c == '.' || c == '_' || ('a' <= c && c <= 'z') || ('A' <= c && c <= 'Z') || ('0' <= c && c <= '9')))
+	return
+}
+
+//@ props C21
+//@ mode int
+//@ loop 1 invariant suffixOf(s, input) && n == len(input)-len(s) && specIntStart(input) < n
+//@ loop 1 invariant specDigitRun(input, specIntStart(input)) == n-specIntStart(input)+specDigitRun(input, n)
+//@ loop 1 decreases len(s)
+//@ loop 2 invariant suffixOf(s, input) && n == len(input)-len(s) && specIntEnd(input)+1 < n
+//@ loop 2 invariant specDigitRun(input, specIntEnd(input)+1) == n-(specIntEnd(input)+1)+specDigitRun(input, n)
+//@ loop 2 decreases len(s)
+//@ loop 3 invariant suffixOf(s, input) && n == len(input)-len(s)
+//@ loop 3 invariant imp(specExpDigits(input) >= 0, specExpDigits(input) <= n && specDigitRun(input, specExpDigits(input)) == n-specExpDigits(input)+specDigitRun(input, n))
+//@ loop 3 invariant imp(specExpDigits(input) < 0, n > specFracEnd(input))
+//@ loop 3 decreases len(s)
+func contract_parseNumber(input []byte) (n int, ok bool) {
+	// an accepted token is exactly the longest JSON-number prefix, followed by a delimiter or the end
+	ensures(imp(ok, n == specNumberEnd(input) && n > 0 && n <= len(input)))
+	ensures(imp(ok, n == len(input) || !isNotDelim(input[n])))
+	ensures(imp(!ok, n == 0))
+	return
+}
